@@ -91,6 +91,52 @@ def replay_model(case) -> dict:
     return dict(failures=fails)
 
 
+def replay_wide(case) -> dict:
+    """Larger boxes and shell widths that are not on any decimal grid (1/16, 1/24, 1.5/min(shape), ...): every shell value against
+    the formula of the property evaluated in double precision; bins within 1e-6 of a shell boundary make their two shells uncertain."""
+    from acryo._utils import fourier_shell_correlation as fsc
+
+    shape = tuple(case["box"])
+    df = case["num"] / case["den"]
+    rng = np.random.default_rng(case["seed"])
+    a = rng.normal(size=shape).astype(np.float32)
+    b = (a + 0.7 * rng.normal(size=shape)).astype(np.float32)
+    freq, out = engine.api(fsc, a, b, df)
+    out = np.asarray(out, dtype=np.float64)
+    fa, fb = np.fft.fftn(a.astype(np.float64)), np.fft.fftn(b.astype(np.float64))
+    fr = np.meshgrid(*[np.fft.fftfreq(n) for n in shape], indexing="ij")
+    q = np.sqrt(sum(f**2 for f in fr)) / df
+    lab = np.floor(q + 1e-12).astype(int)
+    near = np.abs(q - np.round(q)) < 1e-6
+    unsure = set(int(x) for x in np.round(q[near])) | set(int(x) - 1 for x in np.round(q[near]))
+    desc = dict(part="wide", box=list(shape), dfreq=[case["num"], case["den"]])
+    fails = []
+    nchk = 0
+    for L in range(len(out)):
+        if abs(float(freq[L]) - (L + 0.5) * df) > 1e-6:
+            fails.append(dict(desc, clause="ShellFrequency", shell=L))
+        if L in unsure:
+            continue
+        msk = lab == L
+        den = math.sqrt(float((np.abs(fa[msk]) ** 2).sum()) * float((np.abs(fb[msk]) ** 2).sum()))
+        if den == 0:
+            continue
+        want = float((fa[msk] * np.conj(fb[msk])).real.sum()) / den
+        nchk += 1
+        if abs(out[L] - want) > 1e-4:
+            fails.append(dict(desc, clause="ShellValue", shell=L, observed=float(out[L]), expected=want, nbins=int(msk.sum())))
+            break
+    return dict(failures=fails, classes={"wide_shells_checked": nchk})
+
+
+def _wide_cases(seed):
+    out = []
+    for i, (box, num, den) in enumerate((((16, 16, 16), 1, 16), ((16, 16, 16), 3, 32), ((24, 24, 24), 1, 24), ((12, 14, 16), 1, 12), ((12, 14, 16), 3, 24),
+                                         ((9, 11, 10), 1, 9), ((9, 11, 10), 1, 7), ((32, 8, 8), 1, 32), ((16, 16, 16), 1, 13), ((20, 20, 20), 3, 40))):
+        out.append(dict(kind="wide", box=list(box), num=num, den=den, seed=seed + i))
+    return out
+
+
 def _model_cases():
     out = []
     for box in ((8, 8, 8), (7, 8, 9), (6, 9, 7)):
@@ -104,6 +150,8 @@ def _model_cases():
 def replay(case) -> dict:
     if case.get("kind") == "model":
         return replay_model(case)
+    if case.get("kind") == "wide":
+        return replay_wide(case)
     if case.get("kind") == "loader":
         return replay_loader(case)
     if case.get("kind") == "split":
@@ -170,7 +218,7 @@ def replay_loader(case) -> dict:
     n, box = case["n"], tuple(case["box"])
     tomo = rng.normal(size=(24, 24, 10 * n + 12)).astype(np.float32)
     pos = np.array([[12, 12, 10 + 10 * i] for i in range(n)], dtype=np.float32)
-    mole = Molecules(pos, features=pl.DataFrame({"g": [i % 2 for i in range(n)]}))
+    mole = Molecules(pos, features=pl.DataFrame({"g": [i % 2 if n < 7 else int(i >= n - 2) for i in range(n)]}))
     loader = SubtomogramLoader(tomo, mole, order=1, output_shape=box)
     mask = None
     if case["mask"]:
@@ -222,7 +270,13 @@ def replay_loader(case) -> dict:
     gf = engine.api(grp.fsc, mask=mask, seed=case["seed"], n_set=case["n_set"], dfreq=dfq)
     gh = grp.average_split(n_set=case["n_set"], seed=case["seed"], squeeze=False, output_shape=box)
     for key, df in gf.items():
+        members = np.asarray(loader.filter(pl.col("g") == key).asnumpy(output_shape=box), dtype=np.float64)
         for i in range(case["n_set"]):
+            # the two halves of a group are plain means over two disjoint parts of the group that together are the group
+            tot, nm = members.sum(axis=0), len(members)
+            h0, h1 = np.asarray(gh[key][i, 0], dtype=np.float64), np.asarray(gh[key][i, 1], dtype=np.float64)
+            if nm >= 2 and not any(float(np.max(np.abs(n0 * h0 + (nm - n0) * h1 - tot))) < 1e-3 * max(1.0, float(np.abs(tot).max())) for n0 in range(1, nm)):
+                fails.append(dict(desc, clause="GroupHalvesAreDisjointMeans", key=str(key), set=i, members=nm))
             _, ref = fsc(gh[key][i, 0] * m, gh[key][i, 1] * m, dfq)
             if not np.allclose(df[f"FSC-{i}"].to_numpy(), ref, atol=1e-5, equal_nan=True):
                 fails.append(dict(desc, clause="GroupFscIsFscOfGroupHalves", key=str(key), set=i))
@@ -269,7 +323,7 @@ def run(rep: engine.Report, tier: str, seed: int):
         raise engine.MachineryError("MC_C17 emitted nothing")
     lcases = []
     i = 0
-    for n in (4, 7):
+    for n in (4, 7, 9):
         for box in ((8, 8, 8), (7, 8, 9), (5, 5, 5)):
             for mask in (False, True, "soft"):
                 for n_set in (1, 2):
@@ -277,7 +331,7 @@ def run(rep: engine.Report, tier: str, seed: int):
                         i += 1
                         lcases.append(dict(kind="loader", n=n, box=list(box), mask=mask, n_set=n_set, zero_norm=zn,
                                            seed=(seed + i) % 5, seed0=seed * 1000 + i, dfreq=(1.0 / min(box), 1.5 / min(box), 0.25)[i % 3]))
-    mcases = _model_cases()
+    mcases = _model_cases() + _wide_cases(seed)
     allc = cases + lcases + mcases
     results = engine.parallel_replay("harness.props.c17", "replay", allc)
     engine.collect(rep, allc, results, key=lambda c: c.get("cfg") or {k: c[k] for k in c if k != "seed0"})
